@@ -5,15 +5,18 @@ import (
 	"errors"
 	"fmt"
 	"net"
+	"net/http"
 	"net/netip"
 	"os"
 	"path/filepath"
 	"sync"
 	"time"
 
+	"github.com/DataDog/datadog-traceroute/cache"
 	"github.com/DataDog/datadog-traceroute/common"
 	"github.com/DataDog/datadog-traceroute/icmp"
 	"github.com/DataDog/datadog-traceroute/packets"
+	"github.com/DataDog/datadog-traceroute/publicip"
 	"github.com/DataDog/datadog-traceroute/result"
 	"github.com/DataDog/datadog-traceroute/reversedns"
 	"github.com/DataDog/datadog-traceroute/sack"
@@ -55,6 +58,11 @@ type nullSink struct{}
 
 func (nullSink) WriteTo(buf []byte, addr netip.AddrPort) error { return nil }
 func (nullSink) Close() error                                  { return nil }
+
+// resetRT: every request fails with a transport error (retryable for the public-IP lookup)
+type resetRT struct{}
+
+func (resetRT) RoundTrip(*http.Request) (*http.Response, error) { return nil, errors.New("connection reset") }
 
 func labRace(e labEnv) {
 	tags := map[string]int{}
@@ -134,6 +142,30 @@ func labRace(e labEnv) {
 			_, _ = reversedns.GetReverseDnsForIPs(ips)
 			reversedns.LookupAddrFn = old
 			tags["rdns_fanout"]++
+		}
+		// ---- several requests at once on one Traceroute object (the HTTP server's situation): their public-IP lookups
+		// overlap, every provider fails retryably so the retry policy is exercised
+		{
+			cache.Cache.Flush()
+			restoreCk := publicip.VerifSetIPCheckers([]string{"http://a.invalid/", "http://b.invalid/"})
+			restoreRun := traceroute.VerifSetRunOnce(func(ctx context.Context, p traceroute.TracerouteParams, port int) (*result.TracerouteRun, error) {
+				return &result.TracerouteRun{Hops: []*result.TracerouteHop{{TTL: 1, IPAddress: net.IP{8, 8, 8, 8}, RTT: 1, IsDest: true}}}, nil
+			})
+			tr := traceroute.VerifNewTraceroute(publicip.VerifNewFetcher(resetRT{}))
+			var wg sync.WaitGroup
+			for i := 0; i < 3; i++ {
+				wg.Add(1)
+				go func() {
+					defer wg.Done()
+					ctx, cancel := context.WithTimeout(context.Background(), 40*time.Millisecond)
+					defer cancel()
+					_, _ = tr.RunTraceroute(ctx, traceroute.TracerouteParams{Hostname: "x", Protocol: "udp", MinTTL: 1, MaxTTL: 2, TracerouteQueries: 1, CollectSourcePublicIP: true})
+				}()
+			}
+			wg.Wait()
+			restoreRun()
+			restoreCk()
+			tags["concurrent_requests_public_ip"]++
 		}
 		// ---- allocators
 		{
